@@ -1399,6 +1399,173 @@ class Module:
         self.out.append(indent(code, 1))
         self.out.append("")
 
+    # -- T16: the digital line-name cache -------------------------------------------------------------------------------------------
+    def translate_line_names(self, cls: str, keys: dict[str, str]) -> None:
+        """T16: `DigitalWaveform._get_line_names`, `_set_line_name`, `_on_extended_property_changed` and the registration of the
+        latter with the dictionary, over (signal count, NI_LineNames entry, cached list) = the fields of `Model.Names.N`.
+
+        The translator follows list OBJECTS, not names: a chained assignment `a = self._line_names = E` makes the local and the cache
+        one object, `x.extend(E)` / `x[i] = v` change the object (whoever holds it), `x = list(y)` and `x = x + E` make a new one.
+        Statements (closed): `v = self._line_names`; `if v is None: <block>`; `v = self._extended_properties.get(LINE_NAMES, "")`;
+        `assert isinstance(v, str)`; `[a =] [self._line_names =] [n.strip() for n in v.split(",")]`; `if len(a) < self.signal_count:
+        a.extend([""] * (self.signal_count - len(a)))`; `return a`; `a = list(self._get_line_names())` / `a = self._get_line_names()`;
+        `a[column_index] = value`; `self._extended_properties[LINE_NAMES] = ", ".join(a)`; `if key == LINE_NAMES: self._line_names = None`."""
+        PROPS = "self._extended_properties"
+        CACHE = "self._line_names"
+
+        def fail(msg, node):
+            raise Untranslatable(f"{cls}: {msg}", node, self.path)
+
+        def body_of(fn):
+            return [st for st in fn.body if not (isinstance(st, ast.Expr) and isinstance(st.value, ast.Constant))]
+
+        def is_key(e):
+            return isinstance(e, ast.Name) and keys.get(e.id) == "NI_LineNames"
+        # ---- _get_line_names: cache : Option (List Str) -> (cache', names) -------------------------------------------------------
+        g = self.find_func(cls, "_get_line_names")
+        gb = body_of(g)
+        if not (len(gb) == 3 and isinstance(gb[0], ast.Assign) and len(gb[0].targets) == 1 and isinstance(gb[0].targets[0], ast.Name)
+                and ast.unparse(gb[0].value) == CACHE and isinstance(gb[1], ast.If) and not gb[1].orelse
+                and ast.unparse(gb[1].test) == f"{gb[0].targets[0].id} is None" and isinstance(gb[2], ast.Return)
+                and ast.unparse(gb[2].value) == gb[0].targets[0].id):
+            fail("_get_line_names: expected `v = self._line_names; if v is None: …; return v`", g)
+        loc = gb[0].targets[0].id
+        # objects: each list object has a Lean variable; `holders` says which names currently denote it
+        lines = []
+        obj = {}            # python name / CACHE -> lean variable of the list object it denotes
+        strs = {}           # python name -> lean variable (Str)
+        counter = [0]
+
+        def fresh(base):
+            counter[0] += 1
+            return f"{base}{counter[0]}"
+
+        def list_expr(e):
+            """-> lean term : List Str for a NEW list object"""
+            if isinstance(e, ast.ListComp) and len(e.generators) == 1 and not e.generators[0].ifs and isinstance(e.generators[0].target, ast.Name) \
+                    and ast.unparse(e.elt) == f"{e.generators[0].target.id}.strip()" and isinstance(e.generators[0].iter, ast.Call) \
+                    and isinstance(e.generators[0].iter.func, ast.Attribute) and e.generators[0].iter.func.attr == "split" \
+                    and isinstance(e.generators[0].iter.func.value, ast.Name) and e.generators[0].iter.func.value.id in strs \
+                    and len(e.generators[0].iter.args) == 1 and isinstance(e.generators[0].iter.args[0], ast.Constant) and e.generators[0].iter.args[0].value == ",":
+                return f"(Model.Names.splitComma {strs[e.generators[0].iter.func.value.id]}).map Model.Names.strip"
+            fail(f"unsupported list expression {ast.unparse(e)[:80]}", e)
+
+        def pad_expr(e, x):
+            """`[""] * (self.signal_count - len(x))`"""
+            if ast.unparse(e) == f"[''] * (self.signal_count - len({x}))":
+                return f"List.replicate (nsig - {obj[x]}.length) []"
+            fail(f"unsupported padding expression {ast.unparse(e)[:80]}", e)
+        for st in gb[1].body:
+            if isinstance(st, ast.Assign) and isinstance(st.value, ast.Call) and ast.unparse(st.value.func) == PROPS + ".get" and len(st.targets) == 1 \
+                    and isinstance(st.targets[0], ast.Name) and len(st.value.args) == 2 and is_key(st.value.args[0]) \
+                    and isinstance(st.value.args[1], ast.Constant) and st.value.args[1].value == "":
+                v = fresh("s")
+                strs[st.targets[0].id] = v
+                lines.append(f"let {v} : Model.Names.Str := prop.getD []")
+            elif isinstance(st, ast.Assert) and isinstance(st.test, ast.Call) and ast.unparse(st.test.func) == "isinstance" \
+                    and isinstance(st.test.args[0], ast.Name) and st.test.args[0].id in strs and ast.unparse(st.test.args[1]) == "str":
+                continue      # the universe: NI_LineNames holds a str
+            elif isinstance(st, ast.Assign) and all(isinstance(t, ast.Name) or ast.unparse(t) == CACHE for t in st.targets):
+                v = fresh("l")
+                lines.append(f"let {v} : List Model.Names.Str := {list_expr(st.value)}")
+                for t in st.targets:
+                    obj[ast.unparse(t)] = v
+            elif isinstance(st, ast.If) and not st.orelse and len(st.body) == 1 and isinstance(st.test, ast.Compare) and len(st.test.ops) == 1 \
+                    and isinstance(st.test.ops[0], ast.Lt) and isinstance(st.test.left, ast.Call) and ast.unparse(st.test.left.func) == "len" \
+                    and ast.unparse(st.test.comparators[0]) == "self.signal_count":
+                x = ast.unparse(st.test.left.args[0])
+                if x not in obj:
+                    fail(f"len of unknown list {x}", st)
+                inner = st.body[0]
+                if isinstance(inner, ast.Expr) and isinstance(inner.value, ast.Call) and ast.unparse(inner.value.func) == f"{x}.extend" and len(inner.value.args) == 1:
+                    old = obj[x]
+                    v = fresh("l")
+                    lines.append(f"let {v} : List Model.Names.Str := if {old}.length < nsig then {old} ++ {pad_expr(inner.value.args[0], x)} else {old}")
+                    for k_ in [k_ for k_, vv in obj.items() if vv == old]:      # the object changed: every holder sees it
+                        obj[k_] = v
+                elif isinstance(inner, (ast.Assign, ast.AugAssign)):
+                    tgt = inner.targets[0] if isinstance(inner, ast.Assign) else inner.target
+                    rhs = inner.value.right if isinstance(inner, ast.Assign) and isinstance(inner.value, ast.BinOp) and ast.unparse(inner.value.left) == x else \
+                        (inner.value if isinstance(inner, ast.AugAssign) else None)
+                    if ast.unparse(tgt) != x or rhs is None:
+                        fail(f"unsupported padding statement {ast.unparse(inner)[:80]}", inner)
+                    old = obj[x]
+                    v = fresh("l")
+                    lines.append(f"let {v} : List Model.Names.Str := if {old}.length < nsig then {old} ++ {pad_expr(rhs, x)} else {old}")
+                    if isinstance(inner, ast.AugAssign):            # `x += …` extends the list object in place
+                        for k_ in [k_ for k_, vv in obj.items() if vv == old]:
+                            obj[k_] = v
+                    else:                                            # `x = x + …` is a new object: only this name sees it
+                        obj[x] = v
+                else:
+                    fail(f"unsupported padding statement {ast.unparse(inner)[:80]}", inner)
+            else:
+                fail(f"_get_line_names: unsupported statement {ast.unparse(st)[:80]}", st)
+        if loc not in obj:
+            fail("_get_line_names: the local is never bound in the None branch", g)
+        cache_term = f"some {obj[CACHE]}" if CACHE in obj else "none"
+        self.out.append(f"/-- generated from `{cls}._get_line_names`: (the cache afterwards, the list returned) -/")
+        self.out.append("@[pygen] def get_line_names (nsig : Nat) (prop : Option Model.Names.Str) (cache : Option (List Model.Names.Str)) : Option (List Model.Names.Str) × List Model.Names.Str :=")
+        self.out.append("  match cache with\n  | some l0 => (cache, l0)\n  | none =>\n" + indent("\n".join(lines) + f"\n({cache_term}, {obj[loc]})", 2))
+        self.out.append("")
+        # ---- _on_extended_property_changed ------------------------------------------------------------------------------------------
+        h = self.find_func(cls, "_on_extended_property_changed")
+        hb = body_of(h)
+        if not (len(hb) == 1 and isinstance(hb[0], ast.If) and not hb[0].orelse and isinstance(hb[0].test, ast.Compare) and len(hb[0].test.ops) == 1
+                and isinstance(hb[0].test.ops[0], ast.Eq) and ast.unparse(hb[0].test.left) == "key" and is_key(hb[0].test.comparators[0])
+                and len(hb[0].body) == 1 and ast.unparse(hb[0].body[0]) == f"{CACHE} = None"):
+            fail("_on_extended_property_changed: expected `if key == LINE_NAMES: self._line_names = None`", h)
+        self.out.append(f"/-- generated from `{cls}._on_extended_property_changed`: the cache after a notification for a key -/")
+        self.out.append("@[pygen] def on_extended_property_changed (key_is_line_names : Bool) (cache : Option (List Model.Names.Str)) : Option (List Model.Names.Str) :=")
+        self.out.append("  if key_is_line_names = true then none else cache")
+        self.out.append("")
+        # the callback is registered with the dictionary of every DigitalWaveform
+        init_src = ast.unparse(self.find_func(cls, "__init__"))
+        if "self._extended_properties._on_key_changed.append(weakref.WeakMethod(self._on_extended_property_changed))" not in init_src.replace("\n", ""):
+            fail("__init__ does not register _on_extended_property_changed with the dictionary", self.find_func(cls, "__init__"))
+        # ---- _set_line_name ------------------------------------------------------------------------------------------------------------
+        f = self.find_func(cls, "_set_line_name")
+        if [a.arg for a in f.args.args][1:] != ["column_index", "value"]:
+            fail("_set_line_name: parameters", f)
+        lines, obj = [], {}
+        wrote = False
+        for st in body_of(f):
+            if wrote:
+                fail("_set_line_name: statements after the property write", st)
+            if isinstance(st, ast.Assign) and len(st.targets) == 1 and isinstance(st.targets[0], ast.Name) \
+                    and ast.unparse(st.value) in ("list(self._get_line_names())", "self._get_line_names()", "self._get_line_names().copy()", "self._get_line_names()[:]"):
+                lines.append("let r := get_line_names nsig prop cache\nlet cache := r.1")
+                v = fresh("l")
+                lines.append(f"let {v} : List Model.Names.Str := r.2")
+                obj[st.targets[0].id] = v
+                if ast.unparse(st.value) == "self._get_line_names()":
+                    obj[CACHE] = v             # the very list the cache holds
+            elif isinstance(st, ast.Assign) and len(st.targets) == 1 and isinstance(st.targets[0], ast.Subscript) \
+                    and isinstance(st.targets[0].value, ast.Name) and st.targets[0].value.id in obj and ast.unparse(st.targets[0].slice) == "column_index" \
+                    and ast.unparse(st.value) == "value":
+                x = st.targets[0].value.id
+                old = obj[x]
+                v = fresh("l")
+                lines.append(f"let {v} : List Model.Names.Str := {old}.set column_index value")
+                for k_ in [k_ for k_, vv in obj.items() if vv == old]:
+                    obj[k_] = v
+                if obj.get(CACHE) == v:
+                    lines.append(f"let cache := some {v}")
+            elif isinstance(st, ast.Assign) and len(st.targets) == 1 and isinstance(st.targets[0], ast.Subscript) and ast.unparse(st.targets[0].value) == PROPS \
+                    and is_key(st.targets[0].slice) and isinstance(st.value, ast.Call) and ast.unparse(st.value.func) == "', '.join" \
+                    and len(st.value.args) == 1 and isinstance(st.value.args[0], ast.Name) and st.value.args[0].id in obj:
+                lines.append(f"let prop := some (Model.Names.joinNames {obj[st.value.args[0].id]})")
+                lines.append("let cache := on_extended_property_changed true cache      -- the dictionary notifies its listeners of the key (Gen/ExtProps)")
+                wrote = True
+            else:
+                fail(f"_set_line_name: unsupported statement {ast.unparse(st)[:80]}", st)
+        if not wrote:
+            fail("_set_line_name: NI_LineNames is not written", f)
+        self.out.append(f"/-- generated from `{cls}._set_line_name`: (the NI_LineNames entry, the cache) afterwards -/")
+        self.out.append("@[pygen] def set_line_name (nsig : Nat) (prop : Option Model.Names.Str) (cache : Option (List Model.Names.Str)) (column_index : Nat) (value : Model.Names.Str) : Option Model.Names.Str × Option (List Model.Names.Str) :=")
+        self.out.append(indent("\n".join(lines) + "\n(prop, cache)", 1))
+        self.out.append("")
+
     # -- T10: generator loops over time values of one family ------------------------------------------------------------
     def translate_timestamp_generator(self, cls: str, name: str, lean_name: str, attr_types: dict[str, tuple[str, str]],
                                       int_params: list[str]) -> None:
